@@ -272,6 +272,12 @@ func (i idxField) SetValue(opts *options, elem value, v value) Error {
 	if i.i < 0 {
 		return raiseIndexOutOfBounds(opts, elem, i.i)
 	}
+	if int64(i.i) > opts.maxIdx && i.i > len(sub.c.fields.array()) {
+		// Like for index field names (see parseField) the maximum index limits
+		// the memory a single index can claim. Above it a list may only be
+		// extended element by element.
+		return raiseIndexOutOfBounds(opts, elem, i.i)
+	}
 
 	sub.c.fields.setAt(i.i, elem, v)
 	v.SetContext(context{parent: elem, field: i.String()})
